@@ -221,7 +221,11 @@ class PIT(DNAS):
                 if isinstance(layer, PITModule) and hasattr(layer, 'following_bn_args'):
                     layer.following_bn_args = None  # type: ignore
 
+        # `convert` forces `eval()` on the seed: restore the training status afterwards
+        training_status = {m: m.training for m in self.seed.modules()}
         mod, _, _ = convert(self.seed, self._input_example, 'export')
+        for m, status in training_status.items():
+            m.training = status
 
         return mod
 
